@@ -12,9 +12,14 @@ they were, in order.
 Tree level (`ItemNode.FillVariables`, any nesting depth, proofs in Proofs/FillLaws.lean):
 * `unknown_keys_ignored`: a table that names no variable of a well-formed ellipsis-free
   template gives the template back;
+* `unmentioned_remain_in_order`: the variables of the filled item are the template's variables
+  without the bound ones, in their original order;
 * `compose`: if the first fill is accepted, filling its result with `e2` is filling the
   template once with the union `e1 ++ e2` — the same item or the same refusal — for
   ellipsis-free templates and closed fill-in values, exactly the property's quantifier;
+* `compose_full`: the same as an equation of outcomes, refusals included:
+  `fill t (e1 ++ e2) = (fill t e1).bind (fill · e2)` — a first step that is refused is refused
+  in one step too (the offending value is still in the union);
 * `compose_message`: the same for `DataMessage.FillVariables` (header fields are kept).
 
 `compose` excludes float nodes (`noFloatT`): the float factory re-reads a stored 4-byte value
@@ -65,10 +70,23 @@ theorem unknown_keys_ignored (t : Tmpl) (env : Env) (hw : t.wf = true) (hn : noE
     (hu : ∀ v ∈ t.vars, env.get? v = none) : t.fill env = some t :=
   Tmpl.fill_unknown t env hw hn hu
 
+/-- unmentioned variables remain, in their original order: `Variables()` of the result is
+`Variables()` of the template with the filled names struck out -/
+theorem unmentioned_remain_in_order (t t1 : Tmpl) (e : Env) (hw : t.wf = true) (hn : noEllT t = true)
+    (hf : noFloatT t = true) (hc : closedOnT e t) (he : e.get? [] = none) (h : t.fill e = some t1) :
+    t1.vars = t.vars.filter (fun v => (e.get? v).isNone) :=
+  Tmpl.fill_vars t t1 e hw hn hf hc he h
+
 /-- filling in two steps = filling once with the union of the tables -/
 theorem compose (t t1 : Tmpl) (e1 e2 : Env) (hw : t.wf = true) (hn : noEllT t = true) (hf : noFloatT t = true)
     (hc : closedOnT e1 t) (h : t.fill e1 = some t1) : t1.fill e2 = t.fill (e1 ++ e2) :=
   Tmpl.fill_compose t t1 e1 e2 hw hn hf hc h
+
+/-- the composition law as an equation of outcomes (accepted or refused) -/
+theorem compose_full (t : Tmpl) (e1 e2 : Env) (hw : t.wf = true) (hn : noEllT t = true) (hf : noFloatT t = true)
+    (hc : closedOnT e1 t) (he : e1.get? [] = none) :
+    t.fill (e1 ++ e2) = (t.fill e1).bind (fun t1 => t1.fill e2) :=
+  Tmpl.fill_compose_bind t e1 e2 hw hn hf hc he
 
 /-- the same for messages: the header fields are carried along unchanged -/
 theorem compose_message (m m1 : Msg) (e1 e2 : Env) (hw : m.item.wf = true) (hn : noEllT m.item = true)
@@ -122,5 +140,6 @@ example : closedOnT sampleE1 sampleT := by
 example : ((sampleT.fill sampleE1).bind (·.fill sampleE2)).map Tmpl.vars = some [] := by decide
 example : ((sampleT.fill (sampleE1 ++ sampleE2)).map Tmpl.vars) = some [] := by decide
 example : ((sampleT.fill sampleE1).map Tmpl.vars) = some [[121], [122]] := by decide
+example : sampleT.vars = [[120], [121], [122]] ∧ sampleE1.get? [] = none := by decide
 
 end Secs.C09
